@@ -230,13 +230,7 @@ def check_settings(prog: Program, rep, rule: str) -> None:
                               and not parent(s.node).value.args and not parent(s.node).value.keywords
                               for s in cs_stores)
     # the time step in the loop
-    tau_def = None
-    for n in ast.walk(F.loop):
-        if isinstance(n, ast.AugAssign) and isinstance(n.target, ast.Name) and n.target.id == F.t \
-                and isinstance(n.op, ast.Add) and isinstance(n.value, ast.Name):
-            defs = F.defs_reaching(n, n.value.id)
-            if len(defs) == 1 and isinstance(defs[0].ast, ast.Assign):
-                tau_def = defs[0].ast
+    tau_def = F.time_step_def()
     if tau_def is None:
         raise AnalysisError('_integrate: the time step (variable added to the time) has no single definition')
     def reads_calc_step(e: ast.AST, at: ast.AST, depth: int = 0) -> bool:
@@ -565,13 +559,7 @@ def check_step_bound(prog: Program, rep, rule: str) -> None:
     tcc = prog.cls(C.M_TC, 'TrajectoryCalc')
     tc = F.mod
     # tau definition
-    tau_def = None
-    for n in ast.walk(F.loop):
-        if isinstance(n, ast.AugAssign) and isinstance(n.target, ast.Name) and n.target.id == F.t \
-                and isinstance(n.value, ast.Name):
-            defs = F.defs_reaching(n, n.value.id)
-            if len(defs) == 1 and isinstance(defs[0].ast, ast.Assign):
-                tau_def = defs[0].ast
+    tau_def = F.time_step_def()
     if tau_def is None:
         raise AnalysisError('time step definition not found')
     # names used in tau: the air-relative speed is whatever name it reads besides self.calc_step
